@@ -76,6 +76,13 @@ CHECKS = {
         "note": "Trusted: TLC; the scoping rules of DESIGN.md section 3.2 / 6.1 (no shadowing; break needs an enclosing loop).",
         "technique": "TLA+ scoping rules (TshStatic) evaluated by TLC over site-pair families + validation of recorded accept/reject verdicts",
     },
+    "C08": {
+        "text": "TLC enumerates spec/FamC08.tla (97 characters x 4 positions x 12 data paths x origins literal/raw/file/stdin/command output, plus 46 whole values named in the property: "
+                "leading dashes, globs, blanks, things a shell would execute) and validates every recorded Bash run byte for byte (stdout, status, stderr, files, canary) against TshDyn, "
+                "which is the identity on string data. Cells that fail on the unchanged tree are listed as known findings K03-K08 by (path, origin, character); every other cell must pass.",
+        "note": TRUST + " Known findings mask changes that only affect the listed cells.",
+        "technique": "character x path x origin family enumerated by TLC + trace validation of real runs against the TLA+ machine (identity on data)",
+    },
 }
 
 NOT_APPLICABLE = {}
